@@ -199,7 +199,7 @@ def gen_prog(rng, size, feats):
             el = [rng.choice(P.of_kind('LF')) for _ in range(rng.choice(E + [1, 2, 4]))]
             add('LV', '.'.join(map(str, el)), el)
         elif x < 0.85: gen_uvec()
-        elif x < 0.90 and 'ux' in feats:
+        elif x < 0.97 and 'ux' in feats:
             # a second union vector with the same type list, then the type vector of one with the value vector of the other
             uvs = [i for i in P.of_kind('UV') if P.objs[i]['text']]
             if uvs:
@@ -211,7 +211,13 @@ def gen_prog(rng, size, feats):
                         t = int(p.split('/')[0]); i = pick(UNION_KIND[t]); newp.append('%d/%d' % (t, i)); deps.append(i)
                     else: newp.append(p)
                 b = add('UV', '.'.join(newp), deps)
-                add('UX', '%d/%d' % (a, b), [], None, (a, b))
+                ux = add('UX', '%d/%d' % (a, b), [], None, (a, b))
+                # a node that reaches one of the two plain union vectors and, by another field, the mixed one
+                first = rng.choice([a, b])
+                if unf[first] + unf[ux] + 2 <= LIMIT:
+                    inner = add('N', 'id=%d,anys=%d' % (nid, first), (), {'anys': [first]}); nid += 1
+                    fld = rng.choice(['left', 'right'])
+                    add('N', 'id=%d,%s=%d,anys=%d' % (nid, fld, inner, ux), (), {fld: [inner], 'anys': [ux]}); nid += 1
         else:
             ss = [rng.choice(P.of_kind('S')) for _ in range(rng.choice(E + [1, 3]))]
             add('SV', '.'.join(map(str, ss)), ss)
@@ -234,8 +240,9 @@ def clone_part(ctx):
 
     cases = []   # (klass, feats, prog, root, mode, mask, use_map, line)
 
-    def add_case(klass, feats, P, root, mode, mask, use_map, dumps=0):
-        m = mode if mode == 'clone' else '%s:%d' % (mode, mask)
+    def add_case(klass, feats, P, root, mode, mask, use_map, dumps=0, split=0):
+        if mode == 'swap': mask &= ~(1 << FBIT['nested'])
+        m = mode if mode == 'clone' else ('%s:%d:%d' % (mode, mask, split) if mode == 'swap' else '%s:%d' % (mode, mask))
         cases.append((klass, feats, P, root, mode, mask if mode != 'clone' else ALL, use_map, 'run %s %d %d %s' % (m, use_map, dumps, P.tokens())))
 
     def family(klass, feats, nprog, sizes):
@@ -246,6 +253,9 @@ def clone_part(ctx):
             for mode in ('pick', 'fclone', 'vec'):
                 for mask in (ALL, rng.getrandbits(len(FIELDS)), 1 << rng.randrange(len(FIELDS))):
                     add_case(klass, feats, P, root, mode, mask, rng.choice([1, 1, 0]))
+            # the refmap is swapped out and back (nested buffer idiom) between two groups of picks
+            for split in (FBIT['right'], rng.randrange(1, len(FIELDS)), rng.randrange(FBIT['left'], len(FIELDS))):
+                add_case(klass, feats, P, root, 'swap', ALL, rng.choice([1, 1, 1, 0]), split=split)
 
     if ctx.replay_in:
         import json
@@ -268,6 +278,20 @@ def clone_part(ctx):
     add_case('uvec_none', {'unone'}, P, n, 'clone', ALL, 0)
     P = Prog(); n8 = P.add('N8', '77'); n = P.add('N', 'id=1,nested8=0', (), {'nested8': [n8]})
     add_case('nested8', {'nested8'}, P, n, 'clone', ALL, 0)
+    for use_map in (1, 0):
+        P = Prog(); s0 = P.add('S', '6869'); n1 = P.add('N', 'id=1,name=0', (), {'name': [s0]})
+        n2 = P.add('N', 'id=2,name=0,left=1,right=1', (), {'name': [s0], 'left': [n1], 'right': [n1]})
+        add_case('swap_fixed', set(), P, n2, 'swap', ALL, use_map, split=FBIT['right'])
+        add_case('swap_fixed', set(), P, n2, 'swap', ALL, use_map, split=FBIT['pos'])
+    # two union vectors sharing the TYPE vector with different value vectors (and the other way round)
+    for variant in (0, 1):
+        P = Prog(); s0 = P.add('S', '6869'); l1 = P.add('LF', 'name=0', [s0]); v1 = P.add('VS', '3')
+        a = P.add('UV', '2/1.3/2', [l1, v1]); l2 = P.add('LF', 'val=4'); v2 = P.add('VS', '9')
+        b = P.add('UV', '2/4.3/5', [l2, v2]); x = P.add('UX', '%d/%d' % (a, b), [], None, (a, b))
+        inner = P.add('N', 'id=1,anys=%d' % (a if variant == 0 else b), (), {'anys': [a if variant == 0 else b]})
+        root = P.add('N', 'id=2,left=%d,anys=%d' % (inner, x), (), {'left': [inner], 'anys': [x]})
+        for use_map in (1, 0):
+            for mode in ('clone', 'pick', 'vec'): add_case('shared_type_vector', {'ux'}, P, root, mode, ALL, use_map)
     for al in (32, 64, 128, 256):
         for pre in ('', '61', '6162636465'):
             P = Prog(); deps = {}; f = []
@@ -289,6 +313,11 @@ def clone_part(ctx):
         n2 = P.add('N', 'id=2,name=0,left=2,right=2,leaf=1', (), {'name': [s], 'left': [n1], 'right': [n1], 'leaf': [lf]})
         add_case('fixed_diamond', set(), P, n2, 'clone', ALL, use_map, dumps=1)
 
+    api = U.run_capped(H, ['api'])[0]
+    ctx.count('api', klass='builder_refmap_api')
+    if api != 'API ok':
+        ctx.violation('refmap-builder-api', 'flatcc_builder_set_refmap / get_refmap / refmap_find / refmap_insert: %s (bits: 4/32/256/2048 wrong previous map, 8/64/512 a map lost or gained entries '
+                      'when installed or restored, 1/2 null-map wrappers, 16/128 find/insert go to the wrong map, 1024 get_refmap)' % api[:200], {'harness_line': 'api', 'reply': api[:1000]})
     lines = [c[7] for c in cases]
     chunks = [list(range(k, len(lines), 12)) for k in range(12)]
     import concurrent.futures as cf
@@ -326,6 +355,10 @@ def clone_part(ctx):
             viol('failed', 'clone/pick of a verified buffer fails (returns %s) (%s, refmap %d)' % (kv['failed'], mode, use_map)); continue
         if kv.get('dstv') != '0':
             viol('verify', 'the copy does not verify: %s (%s, refmap %d)' % (r.split(' size=')[0][:120], mode, use_map)); continue
+        if kv.get('api', '0') != '0':
+            ctx.violation('refmap-builder-api', 'flatcc_builder_set_refmap / get_refmap misbehaves while swapping maps around a nested buffer (bits %s: 1 wrong previous map returned, 2 a map was modified, 4 get_refmap wrong)' % kv['api'], rep)
+        if kv.get('nest', '1') != '1':
+            viol('nested-build', 'the nested buffer built between the two groups of picks does not read as the source leaf'); continue
         if kv.get('val') != '1':
             viol('value', 'the copy does not read equal to the source (%s, refmap %d)' % (mode, use_map)); continue
         if kv.get('extra') != '0':
